@@ -42,7 +42,7 @@ LEVEL_NOTE = ("trusted: numpy, the transcription of the nondimensional flux sums
               "solver's internal profile (Pr/Er), that of Sn from the public attribute VEF; assumed: parameter values between "
               "lattice values are not seen; vectors for which the solver raises are counted, not judged")
 BOUND = {"quick": "K=1 deviations from the default vector of ED_Solver, nED_Solver, ie_Solver; Sn_Solver default only; times 0, 1e-9, 3e-9",
-         "thorough": "K=2 deviations; Sn_Solver at M0 in {1.2, 2, 3}; times 0, 1e-9, 3e-9"}
+         "thorough": "K=2 deviations; Sn_Solver at M0 in {1.2, 2}; times 0, 1e-9, 3e-9"}
 RULE = ("tasks = parameter vectors with <=K deviations from each family's default; per vector: one construction, one public "
         "call per lattice time plus one at t=0 on the profile nodes (an evaluation is one public call); flux sums on every "
         "profile node; a case (family, vector) is non-trivial when the profile is not uniform (density varies by > 1e-3 "
@@ -70,17 +70,24 @@ FAMILIES = {
     "ie_Solver": {"path": "radshocks.nED_radshocks.ie_Solver",
                   "alphabet": {"M0": [1.4, 1.2, 2.0], "gamma": [G53, 1.4], "Cv": [CV0, 2.0 * CV0], "Tref": [100.0, 50.0],
                                "rho0": [1.0, 3.0]}},
-    "Sn_Solver": {"path": "radshocks.nED_radshocks.Sn_Solver", "alphabet": {"M0": [1.2, 2.0, 3.0]}},
+    "Sn_Solver": {"path": "radshocks.nED_radshocks.Sn_Solver", "alphabet": {"M0": [1.2, 2.0]}},   # M0 = 3 needs > 15 min
 }
 K = {"quick": 1, "thorough": 2}
 TIMES = [0.0, 1.0e-9, 3.0e-9]
 
-# Tolerances.  Measured worst residuals of the unchanged/repaired tree are in the calibration note at the end of the file.
-TOL_FLUX = 1.0e-9        # flux sums are algebraic identities of the profile construction (measured <= 4e-15)
-TOL_END = 1.0e-9         # end states are appended equilibrium states (measured <= 2e-15); fsolve xtol 1e-13 for the jump
+# Tolerances.  Calibration: thorough lattice (235 vectors, 219 solutions) on a worktree carrying the three candidate repairs of
+# findings_proposed/C12.md (on the unchanged tree the same numbers hold outside the recorded findings): flux sums, EOS,
+# upstream state, Tm=Tr, jump relations, t=0 anchoring <= 1e-12 for ED/nED/ie; translation <= 1e-12; ED upstream comoving
+# flux 8.2e-10; FLD Eddington factor 1.3e-8 below 1/3; Sn: momentum 2.8e-8, Tm=Tr 2.4e-9, comoving flux 6.9e-9.
+# Seeded defects (mutants/C12) and the recorded findings give 1e-6 .. 0.7.
+TOL_FLUX_A = 1.0e-9      # flux sums are algebraic identities of the profile construction (measured <= 4e-15)
+TOL_END_A = 1.0e-7       # end states are appended equilibrium states; measured on the thorough lattice: <= 1e-12 except the
+                         # upstream comoving flux of ED_Solver, 8.2e-10 (1/dxdT at T = 1 is large, not infinite)
 TOL_ANCHOR = 1.0e-9      # returned fields at t=0 on profile nodes vs attributes (np.interp at its own nodes)
 TOL_TRANSLATE = 1.0e-6   # np.interp of a profile whose cells are down to 1e-10 wide, abscissae shifted by 0.05: rounding
-NPTS = 200
+TOL_SN = 1.0e-6          # Sn_Solver iterates the variable Eddington factor to f_tol = 1e-4 and interpolates it onto the
+                         # profile abscissae: class B (measured: momentum 2.3e-9, end states 6.4e-9)
+NPTS = 400
 
 
 def tasks(tier, seed):
@@ -121,8 +128,9 @@ def eddington(name, s, n):
 
 
 def flux_clauses(name, s, R):
-    """List of (clause, value, tol, detail) from the public profile attributes."""
+    """List of (clause, value, tol, detail, where) from the public profile attributes."""
     g, rho0, c0, P0, C0, Tref, M0 = R["gamma"], R["rho0"], R["c0"], R["P0"], R["C0"], R["Tref"], R["M0"]
+    TOL_FLUX, TOL_END = (TOL_SN, TOL_SN) if name == "Sn_Solver" else (TOL_FLUX_A, TOL_END_A)
     rho = np.asarray(s.Density, float) / rho0
     u = np.asarray(s.Speed, float) / c0
     p = np.asarray(s.Pressure, float) / (rho0 * c0 * c0)
@@ -131,14 +139,17 @@ def flux_clauses(name, s, R):
     n = len(rho)
     out = []
 
-    def const(clause, total, parts, tol=TOL_FLUX):
+    def const(clause, total, parts):
+        tol = TOL_FLUX
         scale = sum(np.abs(q) for q in parts)
         with np.errstate(all="ignore"):
             r = np.abs(total - total[0]) / np.where(scale > 0, scale, 1.0)
         r = np.where(np.isfinite(r), r, 1.0)
         i = int(np.argmax(r))
+        bad = np.where(r > tol)[0]
+        where = {} if not bad.size else {"nodes": "downstream-end-state-only" if (bad.size == 1 and bad[0] == n - 1) else "interior"}
         out.append((clause, float(r[i]), tol, {"node": i, "nodes": n, "value_there": float(total[i]), "upstream_value": float(total[0]),
-                                               "x_there": float(np.asarray(s.x, float)[i]), "n_bad_nodes": int((r > tol).sum())}))
+                                               "x_there": float(np.asarray(s.x, float)[i]), "n_bad_nodes": int(bad.size)}, where))
 
     # upstream reference state is the user's
     up = max(abs(rho[0] - 1.0), abs(T[0] - 1.0), abs(u[0] - M0) / M0, abs(p[0] - 1.0 / g) * g)
@@ -155,7 +166,7 @@ def flux_clauses(name, s, R):
         out.append(("end:equilibrium-temperatures", float(eq), TOL_END, {}))
         scaleF = abs(u[0] * (0.5 * rho[0] * u[0] ** 2 + rho[0] * e[0] + p[0]))
         out.append(("end:no-heat-flux", float(max(abs(Fe[0]), abs(Fe[-1])) / scaleF), TOL_END, {"Fe_ends": [float(Fe[0]), float(Fe[-1])]}))
-        return out, rho
+        return [c if len(c) == 5 else c + ({},) for c in out], rho
     th = np.asarray(s.Tr, float) / Tref if hasattr(s, "Tr") else T
     E = th ** 4
     F = np.asarray(s.Fr, float) / (C0 * A_RAD * Tref ** 4)
@@ -164,8 +175,10 @@ def flux_clauses(name, s, R):
         out.append(("flux:momentum-not-formed", 0.0, 1.0, {"why": how}))
     else:
         const("flux:momentum", rho * u * u + p + P0 * f * E, [rho * u * u, p, P0 * f * E])
-        out.append(("closure:eddington-factor-in-[1/3,1]", float(max(0.0, (1.0 / 3.0 - f).max(), (f - 1.0).max())), 1.0e-6,
-                    {"min": float(f.min()), "max": float(f.max()), "source": how}))
+        # a transport (Sn) Eddington factor lies in [0, 1]; a flux-limited-diffusion one in [1/3, 1]
+        flo = 0.0 if name == "Sn_Solver" else 1.0 / 3.0
+        out.append(("closure:eddington-factor-in-range", float(max(0.0, (flo - f).max(), (f - 1.0).max())), 1.0e-6,
+                    {"min": float(f.min()), "max": float(f.max()), "allowed": [flo, 1.0], "source": how}))
     const("flux:energy", u * (0.5 * rho * u * u + rho * e + p) + P0 * C0 * F,
           [u * 0.5 * rho * u * u, u * rho * e, u * p, P0 * C0 * F])
     # end states: equilibrium and radiation-modified jump relations (E = T^4, f = 1/3, no comoving flux)
@@ -174,8 +187,11 @@ def flux_clauses(name, s, R):
     fe = f if f is not None else np.full(n, 1.0 / 3.0)
     com = [C0 * F[k] - (1.0 + fe[k]) * u[k] * E[k] for k in (0, -1)]
     sc = [(1.0 + fe[k]) * u[k] * E[k] for k in (0, -1)]
-    out.append(("end:no-comoving-radiation-flux", float(max(abs(com[0]) / sc[0], abs(com[1]) / sc[1])), TOL_END,
-                {"C0*F_ends": [float(C0 * F[0]), float(C0 * F[-1])], "(1+f)uE_ends": [float(sc[0]), float(sc[1])]}))
+    ends = [abs(com[0]) / sc[0], abs(com[1]) / sc[1]]
+    which = [nm for nm, v in zip(("upstream", "downstream"), ends) if not (v <= TOL_END)]
+    out.append(("end:no-comoving-radiation-flux", float(max(ends)), TOL_END,
+                {"C0*F_ends": [float(C0 * F[0]), float(C0 * F[-1])], "(1+f)uE_ends": [float(sc[0]), float(sc[1])]},
+                {"end": "+".join(which)} if which else {}))
     r1, T1, u1 = rho[-1], T[-1], u[-1]
     mom = oracle.relres(M0 * M0, 1.0 / g, P0 / 3.0, -r1 * u1 * u1, -r1 * T1 / g, -P0 * T1 ** 4 / 3.0)
     en = oracle.relres(M0 * (0.5 * M0 * M0 + 1.0 / (g - 1.0)), 4.0 * P0 * M0 / 3.0,
@@ -183,7 +199,7 @@ def flux_clauses(name, s, R):
     ms = oracle.relres(M0, -r1 * u1)
     out.append(("end:radiation-modified-jump", float(max(mom, en, ms)), TOL_END,
                 {"mass": float(ms), "momentum": float(mom), "energy": float(en), "rho1": float(r1), "T1": float(T1)}))
-    return out, rho
+    return [c if len(c) == 5 else c + ({},) for c in out], rho
 
 
 FIELD_ATTR = {"temperature": "Tm", "temperature_mat": "Tm", "temperature_rad": "Tr", "temperature_ion": "Ti",
@@ -232,23 +248,39 @@ def wave_clauses(name, s, R, dg, res):
     sel = sel[ok[sel]]
     q = mids[sel]
     speed = R["M0"] * R["c0"]
-    base = None
-    for t in TIMES:
-        sol = call(s, q + speed * t, t)
+    c_default = math.sqrt(G53 * (G53 - 1.0) * CV0 * 100.0)      # sound speed of the class-default gamma, Cv, Tref
+
+    def moved(v, t):
+        sol = call(s, q + v * t, t)
         res["evals"] += 1
         cur = {fld: np.asarray(sol[fld], float) for fld in sol.dtype.names if fld != "position"}
         for fld in sorted(cur):
             dg.add(cur[fld])
-        if base is None:
-            base = cur
-            continue
+        return cur
+
+    def compare(cur, base):
         worst, wf, wi = 0.0, None, 0
         for fld in sorted(cur):
             m = oracle.mismatch(cur[fld], base[fld], floor=1e-9)
             i = int(np.argmax(m))
             if m[i] > worst:
                 worst, wf, wi = float(m[i]), fld, i
-        out.append(("wave:translates-at-M0*c0(user)", worst, TOL_TRANSLATE,
+        return worst, wf, wi
+
+    base = None
+    for t in TIMES:
+        cur = moved(speed, t)
+        if base is None:
+            base = cur
+            continue
+        worst, wf, wi = compare(cur, base)
+        clause = "wave:translates-at-M0*c0(user)"
+        if worst > TOL_TRANSLATE and abs(c_default / R["c0"] - 1.0) > 1e-9:
+            # reduced oracle for the recorded defect (sound speed frozen at the class defaults): the case counts as that
+            # defect only if the profile IS steady when followed at M0 * c0(default parameters)
+            if compare(moved(R["M0"] * c_default, t), base)[0] <= TOL_TRANSLATE:
+                clause += "/moves-at-M0*c0(default-parameters)"
+        out.append((clause, worst, TOL_TRANSLATE,
                     {"field": wf, "profile_abscissa": float(q[wi]), "at_t": float(cur[wf][wi]) if wf else None,
                      "at_0": float(base[wf][wi]) if wf else None, "speed_M0*c0": speed, "points": int(len(q)),
                      "solver_attribute_sound": float(getattr(s, "sound", float("nan"))), "c0_user": R["c0"]}, {"t": t}))
@@ -266,11 +298,12 @@ def run_task(task):
         s = construct(fam["path"], cfg)
     except Inadmissible:
         C["inadmissible_vectors"] = 1
+        C["declined:ValueError:%s:%s" % (name, sorted((k, str(v)) for k, v in task["dev"].items()))] = 1
         res["digest"] = dg.add("inadmissible").hex()
         return res
     except Exception as ex:          # the solver declines / fails to produce a solution: counted (C20's business)
         C["construct_exceptions"] = 1
-        C["cexc:%s:%s" % (name, type(ex).__name__)] = 1
+        C["declined:%s:%s:%s" % (type(ex).__name__, name, sorted((k, str(v)) for k, v in task["dev"].items()))] = 1
         res["digest"] = dg.add("cexc", type(ex).__name__).hex()
         return res
     C["solutions_produced"] = 1
@@ -281,16 +314,21 @@ def run_task(task):
     bad_x = int((~np.isfinite(x)).sum())
     back = int((np.diff(x) < 0).sum()) if not bad_x else 0
     if bad_x:
-        # no usable profile was produced: np.interp on it returns NaN.  Counted; the NaN itself is C20's business, but the
-        # property cannot hold on it either, so it is reported under its own clause
-        C["profiles_with_nonfinite_abscissae"] = 1
-        checks.append(("profile:abscissae-finite", float(bad_x) / len(x), 0.0, {"nonfinite": bad_x, "nodes": len(x)}, {}))
+        # no solution was produced (the quantifier is "for which a solution is produced"): the abscissae are NaN and every
+        # returned field is NaN.  Counted, not judged -- silent NaN is C20's business
+        C["no_solution:nonfinite_abscissae"] = 1
+        C["no_solution:%s:%s" % (name, sorted((k, str(v)) for k, v in task["dev"].items()))] = 1
     else:
         if back:
             C["profiles_with_backward_steps"] = 1
         fl, rho = flux_clauses(name, s, R)
-        checks += [(c, v, t, d, {}) for c, v, t, d in fl]
-        checks += wave_clauses(name, s, R, dg, res)
+        checks += fl
+        if int((np.diff(x) > 0).sum()) < 10:
+            # a profile of zero extent (all abscissae equal): nothing travels; counted like a non-produced solution
+            C["no_solution:zero_extent_profile"] = 1
+            C["no_solution:%s:%s" % (name, sorted((k, str(v)) for k, v in task["dev"].items()))] = 1
+        else:
+            checks += wave_clauses(name, s, R, dg, res)
         for a in ("Density", "Speed", "Pressure", "Tm"):
             dg.add(np.asarray(getattr(s, a), float))
         if abs(rho[-1] - rho[0]) > 1e-3:
